@@ -115,3 +115,29 @@ package ocidir
 //@   ensures result-truthful: err == nil ==> dOut.Digest == $digestAt(digester, $hv) && dOut.Size == i
 //@   ensures declared-digest-honoured: err == nil && $valid(old(d).Digest) ==> dOut.Digest == old(d).Digest
 //@   ensures declared-size-honoured: err == nil && old(d).Size > 0 ==> dOut.Size == old(d).Size
+
+// C06: a push changes only the pushed tag. indexSet removes an existing index entry only if it
+// carries the pushed tag or is an untagged entry of the pushed digest (the same condition under
+// which it replaces an entry); entries of other tags are never deleted, even if they share the
+// manifest. tagDelete / ManifestDelete delete only entries of the deleted tag / digest.
+//@ callsite slices.Delete(s, i, j)
+//@   prop C06
+//@   name slices.Delete/indexSet
+//@   in ~/scheme/ocidir
+//@   infunc ocidir\.indexSet$
+//@   requires one-entry: j == i + 1 && 0 <= i && i < len(s)
+//@   requires only-pushed-tag-or-untagged-duplicate: (s[i].Annotations["org.opencontainers.image.ref.name"] == "" && s[i].Digest == caller.d.Digest) || (caller.r.Tag != "" && s[i].Annotations["org.opencontainers.image.ref.name"] == caller.r.Tag)
+//@ callsite slices.Delete(s, i, j)
+//@   prop C06
+//@   name slices.Delete/tagDelete
+//@   in ~/scheme/ocidir
+//@   infunc \)\.tagDelete$
+//@   requires one-entry: j == i + 1 && 0 <= i && i < len(s)
+//@   requires only-deleted-tag: s[i].Annotations["org.opencontainers.image.ref.name"] == caller.r.Tag
+//@ callsite slices.Delete(s, i, j)
+//@   prop C06
+//@   name slices.Delete/ManifestDelete
+//@   in ~/scheme/ocidir
+//@   infunc \)\.ManifestDelete$
+//@   requires one-entry: j == i + 1 && 0 <= i && i < len(s)
+//@   requires only-deleted-digest: s[i].Digest == caller.r.Digest
